@@ -72,10 +72,18 @@ def candidates(files):
 
 
 def sh(cmd, cwd=None, env=None, timeout=1800):
+    # own process group, killed as a whole on timeout (a mutant that hangs leaves no orphan chunk behind)
+    import signal
+    p = subprocess.Popen(cmd, cwd=cwd, env=env, stdout=subprocess.PIPE, stderr=subprocess.STDOUT, text=True, start_new_session=True)
     try:
-        p = subprocess.run(cmd, cwd=cwd, env=env, stdout=subprocess.PIPE, stderr=subprocess.STDOUT, text=True, timeout=timeout)
-        return p.returncode, p.stdout
+        out, _ = p.communicate(timeout=timeout)
+        return p.returncode, out
     except subprocess.TimeoutExpired:
+        try:
+            os.killpg(p.pid, signal.SIGKILL)
+        except ProcessLookupError:
+            pass
+        p.communicate()
         return 124, "timeout"
 
 
@@ -121,7 +129,7 @@ def run_worker(k, queue, lock, outpath, jobs):
         else:
             rec["crate_tests"] = "pass"
             for pid in MAP.get(f, []):
-                rc2, out2 = sh(["./check", pid, "quick"], cwd=base + "/verif", env=env, timeout=1500)
+                rc2, out2 = sh(["./check", pid, "quick"], cwd=base + "/verif", env=env, timeout=3000)
                 rec["checks"][pid] = rc2
                 if rc2 == 1:
                     cls = re.findall(r"failure class: (\S+)", out2)
